@@ -26,7 +26,9 @@ def users_for(rng, name):
     return u
 def generate(rng, tier):
     ops = []
-    names = list(NAMES) + ['*', '/@ex.*\\.com$', '/^[a-z]+@/', '/@b\\.example$/']
+    names = list(NAMES) + ['*', '/@ex.*\\.com$', '/^[a-z]+@/', '/@b\\.example$/',
+                           # expressions containing '/': only ONE trailing '/' is optional syntax, the rest is expression
+                           '/^host/[^@]+@b\\.example$', '/^host/[^@]+@b\\.example$/', '/a/b/', '//', '/x//']
     if tier == 'thorough':
         for _ in range(300):
             ln = rng.randrange(1, 30)
